@@ -4,7 +4,9 @@ from marshmallow import fields, validate
 
 BROADCAST_ID = 255
 DEFAULT_PROTOCOL_VERSION = "1.4"
+MAX_BATTERY_LEVEL = 100
 MAX_NODE_ID = 254
+MIN_BATTERY_LEVEL = 0
 NODE_ID_FIELD = fields.Int(
     required=True,
     validate=validate.Range(
